@@ -70,9 +70,17 @@ def run(ctx):
             lines.append("frdec %s %s" % (kind, E.hx(b)))
             classes.append(kind + ":" + cls)
             nt.append(len(b) > 0)
+    rng0 = ctx.rng
+    for v in [0, 1, R - 1, R, R + 1, R + 5, 2 * R, 2 ** 256 - 1, 2 ** 256, 2 ** 300 + 7] + [rng0.randrange(2 ** 260) for _ in range(ctx.n(40, 2000))]:
+        for neg in ("", " neg"):
+            lines.append("frbig %x%s" % (v, neg))
+            classes.append("bigint" + neg)
+            nt.append(True)
     impl, _ = diff(ctx, lines, "fr decoders", classes, nt)
     # property-level predicates on the implementation's own output
     for l, o in zip(lines, impl):
+        if not l.startswith("frdec "):
+            continue
         t = o.split()
         inp = l.split()[2]
         if len(t) == 3 and t[1] != inp:
